@@ -58,6 +58,8 @@ package git
 //gvc:  theory int
 //gvc:  opt coarse
 //gvc:  opt frame args
+//gvc:  results f err
+//gvc:  ensures fresh: err == nil ==> f != nil && f.#pos == 0 && 0 <= f.#n && f.#n <= 0x4000000000000000
 //gvc:  sink Open requires gate: wt_root(arg0) || (spec_wtpath(strid(arg0)) && spec_wtnosym(strid(arg0)))
 //gvc:end
 
@@ -348,4 +350,23 @@ package git
 //gvc:  requires nn: object != nil && cfg != nil
 //gvc:  sink NewCRLFWriter requires asgit: !spec_is_binary(stat.NUL, stat.LoneCR, stat.Printable, stat.NonPrintable) && stat.LoneCR == 0 && stat.CRLF == 0
 //gvc:  sink NewCRLFWriter requires whole: src.#pos == 0 && forall(k, 0, src.#n, src.#data[k] != 0 && src.#data[k] != '\r')
+//gvc:end
+
+// Property C31, add side. With core.autocrlf=true|input git converts CRLF to
+// LF when the file is not binary (no NUL, no lone CR, git's printable ratio)
+// -- and, since git 2.10, only when the blob the index already has for the
+// path contains no CR (convert.c has_crlf_in_index). Call-site obligation on
+// the converter: the statistics are those of the whole file that is copied
+// next, from its first byte.
+// Known finding F24: go-git has no has_crlf_in_index rule.
+//gvc:func (*Worktree).fillEncodedObjectFromFile
+//gvc:  props C31
+//gvc:  theory int
+//gvc:  opt coarse
+//gvc:  opt frame args
+//gvc:  requires nn: cfg != nil && w.filesystem != nil
+//gvc:  sink NewLFWriter requires asgit: !spec_is_binary(stat.NUL, stat.LoneCR, stat.Printable, stat.NonPrintable)
+//gvc:  sink NewLFWriter requires whole: file.#pos == 0 && forall(k, 0, file.#n, file.#data[k] != 0 && (file.#data[k] == '\r' ==> k + 1 < file.#n && file.#data[k + 1] == '\n'))
+//gvc:  sink NewLFWriter requires safecrlf: stat.CRLF == 0 || !spec_index_has_cr(strid(path))
+//gvc:  kf F24 safecrlf: stat.CRLF > 0 && spec_index_has_cr(strid(path))
 //gvc:end
